@@ -233,7 +233,13 @@ class CallsMixin:
 
     def call_repo_function(self, f, args, kwargs, fr, awaited, self_obj=None):
         if isinstance(f, types.MethodType):
-            raise Unsupported("bound python method")
+            # a classmethod looked up on a class of the repository (Config.from_object ...): the
+            # class is the first argument; only callable through a contract
+            if isinstance(f.__self__, type) and f"{f.__func__.__module__}:{f.__func__.__qualname__}" in self.reg.fns:
+                args = [f.__self__] + list(args)
+                f = f.__func__
+            else:
+                raise Unsupported("bound python method")
         qn = f"{f.__module__}:{f.__qualname__}"
         fc = self.reg.fns.get(qn)
         if fc is not None and not self.is_inlining(qn):
@@ -1141,6 +1147,18 @@ class CallsMixin:
             ctx.assume(z3.Length(sq.e) >= 1)
             ctx.assumptions_used.add("str.split result is an uninterpreted non-empty sequence")
             return PList(sym=sq)
+        if name == "lstrip" and args and not is_sym(args[0]) and len(args[0]) >= 1 and not kwargs:
+            # lstrip(chars) for a literal character set, exactly: s == p + r, p consists of
+            # characters of the set only, r does not start with one
+            lit = args[0] if isinstance(args[0], str) else bytes(args[0]).decode("latin-1")
+            cs = sorted(set(lit))
+            one = z3.Union(*[z3.Re(z3.StringVal(c)) for c in cs]) if len(cs) > 1 else z3.Re(z3.StringVal(cs[0]))
+            pfx = ctx.fresh("lstrip.prefix", Str)
+            r = ctx.fresh("lstrip.rest", Str)
+            ctx.assume(e == z3.Concat(pfx, r))
+            ctx.assume(z3.InRe(pfx, z3.Star(one)))
+            ctx.assume(z3.Or(z3.Length(r) == 0, z3.Not(z3.InRe(z3.SubString(r, 0, 1), one))))
+            return SymStr(r, kind)
         if name == "rstrip":
             chars = str_to_z3(args[0]) if args else z3.StringVal(" ")
             f_rstrip = z3.Function("s_rstrip", Str, Str, Str)
